@@ -75,13 +75,14 @@ where
     New: Index<usize> + ?Sized + 'new,
     New::Output: PartialEq<Old::Output>,
 {
+    #[verifier::prophetic] spec fn fo(&self) -> Seq<Obs<D::Error>> { seq![obs_now(mut_ref_future(self.d))] + mut_ref_future(self.d).fobs() }
     spec fn rst0(&self) -> St { canon(0, 0, self.old_indexes@.len() as int, self.new_indexes@.len() as int) }
     spec fn rst(&self) -> St { run_rel(rel_true(), self.rst0(), self.hist@) }
     spec fn ubox_o(&self) -> Range<usize> { (self.o0@ as usize)..self.old_end }
     spec fn ubox_n(&self) -> Range<usize> { (self.n0@ as usize)..self.new_end }
     /// the part that never changes
     spec fn frame_ok(&self) -> bool {
-        &&& 0 <= self.o0@ <= self.old_end && 0 <= self.n0@ <= self.new_end
+        &&& 0 <= self.o0@ <= self.old_end && 0 <= self.n0@ <= self.new_end && self.old_indexes@.len() <= usize::MAX && self.new_indexes@.len() <= usize::MAX
         &&& uniq_ok(self.old_indexes@, self.o0@, self.old_end as int) && uniq_ok(self.new_indexes@, self.n0@, self.new_end as int)
         &&& box_pre(self.old, self.ubox_o(), self.new, self.ubox_n())
         &&& rely_pre(self.d0@, self.old, self.ubox_o(), self.new, self.ubox_n(), alg_lvl(self.deadline))
@@ -124,7 +125,7 @@ closed spec fn rely_st(&self) -> St { St { ok: self.inv(), ..self.rst() } }
 closed spec fn observes_finish() -> bool { true }
 closed spec fn replace_is_atomic() -> bool { false }
 open spec fn accepts_replace(&self) -> bool { true }
-#[verifier::prophetic] closed spec fn fobs(&self) -> Obs<Self::Error> { obs_now(mut_ref_future(self.d)) }
+#[verifier::prophetic] closed spec fn fobs(&self) -> Seq<Obs<Self::Error>> { self.fo() }
 /// configuration: everything but the cursors, the borrowed hook and the ghost histories
 closed spec fn config(&self) -> Self {
     Patience { d: arbitrary(), old_current: 0, new_current: 0, hist: Ghost(Seq::empty()), s: Ghost(Seq::empty()), ..*self }
@@ -258,8 +259,9 @@ proof {
     assert(pt.done());
     // the hook held by the Patience struct is the caller's hook: no call re-seated the borrow (fobs never changes) and
     // the struct dies here, so what the caller will see is the hook's current state
-    assert(rp0.fobs() == obs_now(dfv));
+    assert(rp0.fobs()[0] == obs_now(dfv));
     assert(rp.fobs() == rp0.fobs());
+    assert(rp.fobs()[0] == obs_now(mut_ref_future(pt.d)));
     assert(obs_now(*pt.d) == obs_now(dfv));
     lemma_post_transfer(ud0, *pt.d, dfv, old, old_range, new, new_range, lvl, false, fin::<D>(), Ok::<(), D::Error>(()));
 }
